@@ -41,6 +41,8 @@ extern int g_blk_state;
 extern uint64_t g_nalloc, g_ndealloc, g_nrealloc, g_nctor, g_nassign, g_ndtor, g_nmove, g_nbytecopy, g_ncmp;
 /* throw oracle switches (harness may pin them) */
 extern _Bool g_allow_elem_throw, g_allow_alloc_fail;
+/* value held by the most recently declared local temporary (values that flow through an untracked temporary) */
+extern uint64_t g_tmp_obj; extern _Bool g_tmp_has; extern int g_tmp_val;
 /* last comparison ranges (operator== / operator<) */
 extern uint64_t g_cmp_obj1, g_cmp_off1, g_cmp_n1, g_cmp_obj2, g_cmp_off2, g_cmp_n2;
 extern int g_cmp_kind;
@@ -65,6 +67,7 @@ static inline _Bool l0_tok_in(const E *first, uint64_t n) { return g_tok_on && l
 static inline int l0_valat(uint64_t obj, uint64_t off) {
   if (g_tok_on && g_tok_obj == obj && g_tok_off == off) return g_tokval;
   if (g_cell_obj == obj && g_cell_off == off && g_cell_st == ST_LIVE) return g_cell_val;
+  if (g_tmp_has && g_tmp_obj == obj && off == 0) return g_tmp_val;     /* value parked in the most recent local temporary */
   return nondet_int();
 }
 static inline void l0_range_ok(const E *p, uint64_t n, const char *what) {
@@ -107,6 +110,7 @@ static inline void L0_E_copy_construct(E *d, const E *s) {
   if (l0_elem_throws()) return;
   int v = l0_valat(OBJ(s), OFF(s));
   if (l0_cell_at(d)) { g_cell_st = ST_LIVE; g_cell_val = v; }
+  if (OBJ(d) == g_tmp_obj && OFF(d) == 0) { g_tmp_has = 1; g_tmp_val = v; }
   g_nctor++;
 }
 static inline void L0_E_move_construct(E *d, E *s) {
@@ -121,6 +125,8 @@ static inline void L0_E_move_construct(E *d, E *s) {
   if (l0_tok_at(s)) { g_tok_obj = OBJ(d); g_tok_off = OFF(d); }
   if (l0_cell_at(d)) { g_cell_st = ST_LIVE; g_cell_val = v; }
   else if (l0_cell_at(s) && !CAT_TC) { g_cell_st = ST_MOVED; g_cell_val = nondet_int(); }
+  if (OBJ(d) == g_tmp_obj && OFF(d) == 0) { g_tmp_has = 1; g_tmp_val = v; }
+  else if (OBJ(s) == g_tmp_obj) g_tmp_has = 0;
   g_nctor++; g_nmove++;
 }
 static inline void L0_E_value_construct(E *d) {
@@ -203,7 +209,7 @@ static inline void l0_transfer(E *d, E *s, uint64_t n, int mode) {
   }
   /* value arriving at the tracked cell */
   int v = 0;
-  if (c_dst) v = l0_valat(g_cell_obj, OFF(s) + (g_cell_off - OFF(d)));
+  if (c_dst) v = l0_valat(OBJ(s), OFF(s) + (g_cell_off - OFF(d)));
   _Bool t_src = l0_tok_in(s, n), t_dst = l0_tok_in(d, n);
   if (t_src) {
     if (mode & (TR_MOVE | TR_RELOC)) { g_tok_off = OFF(d) + (g_tok_off - OFF(s)); g_tok_obj = OBJ(d); }
@@ -462,6 +468,12 @@ static inline void *L0_realloc(void *p, uint64_t bytes) {
   return q;
 }
 
+/* a local object that has just been declared holds no element (the tracked cell / token may prophetically lie in it) */
+static inline void L0_fresh_local(const void *p, uint64_t bytes) {
+  if (g_cell_obj == OBJ(p)) __CPROVER_assume((CAT_TC || g_cell_st == ST_RAW) && g_cell_off % ESZ == 0 && g_cell_off + ESZ <= bytes);
+  if (g_tok_on) __CPROVER_assume(g_tok_obj != OBJ(p));
+  g_tmp_obj = OBJ(p); g_tmp_has = 0;
+}
 static inline void L0_terminate(void) { L0_assert(0, "C13 C17: no exception escapes a noexcept function (std::terminate)"); }
 static inline void L0_missing_return(void) { L0_assert(0, "C15 C16: control reaches the end of a non-void function"); }
 
